@@ -4,11 +4,14 @@ import random
 
 from .. import core, flow, corr_loop, oracles_sde as osde
 
-PROOFS = ['Tsv.Proofs.LoopCore', 'Tsv.Proofs.C14']
+PROOFS = ['Tsv.Proofs.LoopCore', 'Tsv.Proofs.C14', 'Tsv.Proofs.C14Term']
 TRUSTED = ["Lean 4.33 kernel + Mathlib", "adaptive loop model tied to the real integrate by correspondence (every trial: "
            "curr_t, next_t, step size, error, accepted — bit for bit)", "tracer/emitter for update_step_size/compute_error",
-           "termination and 'tightening tolerances reduces the true error' are NOT proved (partial): explored on the real code",
-           "real power function: pw x a < 1 for 0 < x < 1 is a hypothesis of reject_shrinks"]
+           "termination (C14Term.adaptive_terminates) is proved over an Archimedean ordered field for every error oracle; floats can "
+           "stagnate (curr_t + h == curr_t) when dt_min is below the float spacing at curr_t - not exhibited by the field model; "
+           "non-termination of the real code within 60 s is reported by the oracle as a failing input",
+           "'tightening tolerances reduces the true error' is NOT proved (partial): explored on the real code (C01 oracle)",
+           "the power function enters through 0 < x <= 9/10 -> pw x (2/3) <= c0 < 1 (proved for Real.rpow: rpow_contracts)"]
 
 
 def run(rep, tier, seed):
